@@ -588,7 +588,7 @@ pub async fn tcp_roundtrips(msg: &[u8], log: srv::InvLog, cfg: jsonrpsee_server:
 }
 
 /// Read one HTTP/1.1 response with Content-Length or chunked framing from a keep-alive connection.
-async fn read_response(io: &mut tokio::net::TcpStream) -> Option<(u16, Vec<u8>)> {
+pub async fn read_response(io: &mut tokio::net::TcpStream) -> Option<(u16, Vec<u8>)> {
 	use tokio::io::AsyncReadExt;
 	let mut buf: Vec<u8> = Vec::new();
 	let mut tmp = [0u8; 4096];
